@@ -206,7 +206,7 @@ var accTable = []accEntry{
 	{"UserClass", 77, "strings", func(p *dhcpv4.DHCPv4, _ time.Duration) string { return showStrsC(p.UserClass()) }, true},
 	{"VIVC", 124, "vivc", func(p *dhcpv4.DHCPv4, _ time.Duration) string { return showVIVCC(p.VIVC()) }, true},
 	{"ClientArch", 93, "archs", func(p *dhcpv4.DHCPv4, _ time.Duration) string { return showArchsC(p.ClientArch()) }, true},
-	{"DomainSearch", 119, "labels", func(p *dhcpv4.DHCPv4, _ time.Duration) string { return showLabelsC(p.DomainSearch()) }, false},
+	{"DomainSearch", 119, "labels", func(p *dhcpv4.DHCPv4, _ time.Duration) string { return showLabelsC(p.DomainSearch()) }, true},
 }
 
 func findAcc(name string) *accEntry {
@@ -335,7 +335,6 @@ var ctorTable = []ctorEntry{
 		}
 		return dhcpv4.OptClientArch(as...)
 	}},
-	// not in the Lean model (rfc1035label): only the c17 oracle uses it
 	{"OptDomainSearch", "DomainSearch", "labels", func(a string) dhcpv4.Option {
 		l := rfc1035label.NewLabels()
 		for _, t := range splitList(a) {
@@ -384,6 +383,8 @@ func execV4Acc(op string, args []string) string {
 			return "bad-op"
 		}
 		return "ok " + a.run(p, time.Duration(atoi64(args[3])))
+	case "v4hist":
+		return v4accExecHist(args)
 	case "v4setget":
 		if len(args) != 3 {
 			return "bad-op"
@@ -465,17 +466,34 @@ func tile(r *Rng, kind string, n int) []byte {
 			out = append(out, r.Bytes(l)...)
 		}
 	case "labels":
+		var starts []int
 		for rem() >= 3 {
-			// one name of one or two labels
-			l := r.Range(1, min(rem()-2, 20))
+			// one name of one or two labels, ended by 00 or by a pointer to
+			// the start of an earlier name
+			starts = append(starts, len(out))
+			l := r.Range(1, min(rem()-2, 12))
 			out = append(out, byte(l))
 			for i := 0; i < l; i++ {
 				out = append(out, byte('a'+r.Intn(26)))
 			}
-			if rem() >= 3 && r.Bool() {
+			if rem() >= 4 && r.Bool() {
+				l2 := r.Range(1, min(rem()-2, 6))
+				out = append(out, byte(l2))
+				for i := 0; i < l2; i++ {
+					out = append(out, byte('a'+r.Intn(26)))
+				}
+			}
+			if len(starts) > 1 && rem() >= 2 && r.Chance(1, 3) {
+				out = append(out, 0xc0, byte(starts[r.Intn(len(starts)-1)]))
 				continue
 			}
 			out = append(out, 0)
+		}
+		switch rem() {
+		case 1:
+			out = append(out, 0) // the root name
+		case 2:
+			out = append(out, 1, byte('a'+r.Intn(26))) // trailing partial name (RFC 4704)
 		}
 	}
 	out = append(out, r.Bytes(rem())...)
@@ -764,9 +782,7 @@ func modelAccs() []*accEntry {
 func modelCtors() []*ctorEntry {
 	var out []*ctorEntry
 	for i := range ctorTable {
-		if ctorTable[i].kind != "labels" {
-			out = append(out, &ctorTable[i])
-		}
+		out = append(out, &ctorTable[i])
 	}
 	return out
 }
@@ -776,14 +792,20 @@ func init() {
 	// The generated part walks (accessor, length 0..64, filling) cyclically, so
 	// a run with >= len(accs)*65*4 accessor cases (7280; the quick tier asks
 	// for more) hits every length of every accessor with every filling; the
-	// bytes come from the per-case PRNG. Every fifth case is a set/get.
-	nAcc, nSet := 0, 0
+	// bytes come from the per-case PRNG. Of every six cases one is a set/get
+	// and one a set/get history.
+	nAcc, nSet, nHist := 0, 0, 0
 	register(&Stream{
 		Name: "v4acc",
 		Gen: func(r *Rng, thorough bool) (string, []string) {
-			if (nAcc+nSet)%5 == 4 {
+			switch (nAcc + nSet + nHist) % 6 {
+			case 4:
 				nSet++
 				return genSetGetLine(r, ctors[nSet%len(ctors)])
+			case 5:
+				// set/get history: get, caller edits, set, read (also across the wire)
+				nHist++
+				return v4accGenHist(r, ctors[nHist%len(ctors)])
 			}
 			i := nAcc
 			nAcc++
@@ -807,6 +829,29 @@ func init() {
 						fill[i] = byte(r.Pick([]int{0, 1, 4, 32, 33, 255}))
 					}
 					emit(fmt.Sprintf("v4acc %s 1 %s 7 -", a.name, hx(fill)))
+				}
+			}
+			// histories: every constructor x a few well-formed raw values x
+			// every single edit (each index 0..3) -> set -> read, also across
+			// the wire and set twice
+			for _, c := range ctors {
+				a := findAcc(c.acc)
+				for k := 0; k < 4; k++ {
+					raw := hx(wfValue(r, a.kind, 12+8*k))
+					var edits []string
+					if v4accIsList(c.kind) {
+						for i := 0; i < 4; i++ {
+							edits = append(edits, fmt.Sprintf("s:%d:%s", i, v4accGenElem(r, c.kind)))
+						}
+						edits = append(edits, "a:"+v4accGenElem(r, c.kind), "d:0", "d:1", "d:2", "R",
+							"s:0:"+v4accGenElem(r, c.kind)+" R")
+					} else {
+						edits = append(edits, "r:"+genCtorArg(r, c))
+					}
+					edits = append(edits, "")
+					for _, e := range edits {
+						emit(strings.Join(strings.Fields(fmt.Sprintf("v4hist %s 1 %s 7 g %s u o w o u o", c.name, raw, e)), " "))
+					}
 				}
 			}
 		},
